@@ -130,6 +130,12 @@ func genE4History(t *rapid.T, o e4GenOpts) e4Case {
 		}
 		return mk.Content{Seed: uint32(counter), Len: n, Style: rapid.SampledFrom([]int{0, 0, 2}).Draw(t, label+"Style")}
 	}
+	split := func(ct mk.Content) int {
+		if ct.Len < 2 || rapid.IntRange(0, 2).Draw(t, "splitWrite") != 0 {
+			return 0
+		}
+		return rapid.SampledFrom([]int{1, ct.Len / 2, ct.Len - 1}).Draw(t, "splitAt")
+	}
 	newName := func(dir string) string {
 		dn := m.Lookup(dir)
 		used := map[string]bool{}
@@ -148,6 +154,7 @@ func genE4History(t *rapid.T, o e4GenOpts) e4Case {
 		}
 		return rapid.SampledFrom(ds).Draw(t, "dir")
 	}
+	lastTimes := map[string]e4Op{}
 	nops := rapid.IntRange(1, o.maxOps).Draw(t, "nops")
 	for i := 0; i < nops; i++ {
 		files := m.Files()
@@ -178,6 +185,9 @@ func genE4History(t *rapid.T, o e4GenOpts) e4Case {
 			}
 		}
 		kinds = append(kinds, "populate")
+		if !o.noRemove && len(files) >= 8 {
+			kinds = append(kinds, "depopulate")
+		}
 		if o.forceFill || rapid.IntRange(0, 6).Draw(t, "fillChance") == 0 {
 			kinds = append(kinds, "fill")
 		}
@@ -199,7 +209,7 @@ func genE4History(t *rapid.T, o e4GenOpts) e4Case {
 			if n != nil {
 				n.WriteAt(0, ct.Bytes())
 			}
-			c.Ops = append(c.Ops, e4Op{K: "create", P: p, D: ct})
+			c.Ops = append(c.Ops, e4Op{K: "create", P: p, D: ct, N: split(ct)})
 		case "write":
 			p := rapid.SampledFrom(files).Draw(t, "wfile")
 			n := m.Lookup(p)
@@ -219,13 +229,13 @@ func genE4History(t *rapid.T, o e4GenOpts) e4Case {
 			}
 			ct := content("writeLen")
 			n.WriteAt(off, ct.Bytes())
-			c.Ops = append(c.Ops, e4Op{K: "write", P: p, Off: off, D: ct})
+			c.Ops = append(c.Ops, e4Op{K: "write", P: p, Off: off, D: ct, N: split(ct)})
 		case "append":
 			p := rapid.SampledFrom(files).Draw(t, "afile")
 			ct := content("appendLen")
 			n := m.Lookup(p)
 			n.WriteAt(int64(len(n.Data)), ct.Bytes())
-			c.Ops = append(c.Ops, e4Op{K: "append", P: p, D: ct})
+			c.Ops = append(c.Ops, e4Op{K: "append", P: p, D: ct, N: split(ct)})
 		case "interleave":
 			// appends of one block to two files, k rounds: forces many non-mergeable extents
 			p := rapid.SampledFrom(files).Draw(t, "ifile")
@@ -282,7 +292,20 @@ func genE4History(t *rapid.T, o e4GenOpts) e4Case {
 				continue
 			}
 			ts := []int64{-2147483648, -1, 0, 1, 946684800, 1700000000, 2147483647, 2147483648, 4294967295, 4294967296, 15032385535}
-			c.Ops = append(c.Ops, e4Op{K: "chtimes", P: p, T1: rapid.SampledFrom(ts).Draw(t, "ct"), T2: rapid.SampledFrom(ts).Draw(t, "at"), T3: rapid.SampledFrom(ts).Draw(t, "mt"), NS: rapid.SampledFrom([]int{0, 0, 1, 999999999, 500000000}).Draw(t, "ns")})
+			op := e4Op{K: "chtimes", P: p, T1: rapid.SampledFrom(ts).Draw(t, "ct"), T2: rapid.SampledFrom(ts).Draw(t, "at"), T3: rapid.SampledFrom(ts).Draw(t, "mt"), NS: rapid.SampledFrom([]int{0, 0, 1, 999999999, 500000000}).Draw(t, "ns")}
+			if prev, ok := lastTimes[p]; ok && rapid.IntRange(0, 2).Draw(t, "sameTwo") == 0 {
+				// change one of the three times only: the other two repeat the previous call on this node exactly
+				switch rapid.IntRange(0, 2).Draw(t, "whichTime") {
+				case 0:
+					op.T2, op.T3, op.NS = prev.T2, prev.T3, prev.NS
+				case 1:
+					op.T1, op.T3, op.NS = prev.T1, prev.T3, prev.NS
+				default:
+					op.T1, op.T2, op.NS = prev.T1, prev.T2, prev.NS
+				}
+			}
+			lastTimes[p] = op
+			c.Ops = append(c.Ops, op)
 		case "populate":
 			d := pickDir()
 			counter++
@@ -299,6 +322,29 @@ func genE4History(t *rapid.T, o e4GenOpts) e4Case {
 					}
 				}
 			}
+		case "depopulate":
+			// remove most files of the directory that holds the most: a directory that had grown past one
+			// block then owns more blocks than its entries need
+			best, bestN := "", 0
+			for _, d := range m.Dirs() {
+				cnt := 0
+				if dn := m.Lookup(d); dn != nil {
+					for _, ch := range dn.Children {
+						if !ch.Dir {
+							cnt++
+						}
+					}
+				}
+				if cnt > bestN {
+					best, bestN = d, cnt
+				}
+			}
+			keep := rapid.SampledFrom([]int{0, 1, 3, bestN / 3}).Draw(t, "depKeep")
+			op := e4Op{K: "depopulate", P: best, N: keep}
+			for _, nm := range e4DepopulateNames(m.Lookup(best), keep) {
+				_ = m.Remove(model.Join(best, nm))
+			}
+			c.Ops = append(c.Ops, op)
 		case "squeeze":
 			vi := rapid.IntRange(0, len(files)-1).Draw(t, "sqzVictim")
 			gi := rapid.IntRange(0, len(files)-2).Draw(t, "sqzGrow")
@@ -336,6 +382,32 @@ func pickNonLink(t *rapid.T, m *model.Tree, all []string) string {
 	return rapid.SampledFrom(c).Draw(t, "attrTarget")
 }
 
+// e4DepopulateNames lists the non-directory children of a directory that a depopulate op removes:
+// all but the first keep ones in name order, last names first.
+func e4DepopulateNames(dn *model.Node, keep int) []string {
+	if dn == nil {
+		return nil
+	}
+	var names []string
+	for _, ch := range dn.Children {
+		if !ch.Dir {
+			names = append(names, ch.Name)
+		}
+	}
+	sort.Strings(names)
+	if keep < 0 {
+		keep = 0
+	}
+	if keep >= len(names) {
+		return nil
+	}
+	out := append([]string(nil), names[keep:]...)
+	for i, j := 0, len(out)-1; i < j; i, j = i+1, j-1 {
+		out[i], out[j] = out[j], out[i]
+	}
+	return out
+}
+
 // e4PopData is the content of the j-th file of a populate op (only style 2 writes any).
 func e4PopData(op e4Op, j, bs int) []byte {
 	if op.Chunk != 2 {
@@ -357,6 +429,7 @@ func e4PopName(op e4Op, j int) string {
 // ---------- executor ----------
 
 type e4Run struct {
+	nextSplit         int  // split point of the next openWrite's data (two Write calls on one handle)
 	doFrame           bool // C19: changing one attribute of one node changes nothing else
 	guardOnly         bool // C03: only containment is judged; a panic/hang aborts the history with a note
 	aborted           bool
@@ -495,14 +568,24 @@ func (x *e4Run) openWrite(p string, flag int, seek int64, data []byte, readBack 
 				return nil
 			}
 		}
-		if len(data) > 0 {
-			n, err := f.Write(data)
+		// optionally in two Write calls on the same handle with no Seek in between (see the FAT executor)
+		pieces := [][]byte{data}
+		if sp := x.nextSplit; sp > 0 && sp < len(data) {
+			pieces = [][]byte{data[:sp], data[sp:]}
+			x.r.Class("write-in-two-calls")
+		}
+		x.nextSplit = 0
+		for _, piece := range pieces {
+			if len(piece) == 0 {
+				continue
+			}
+			n, err := f.Write(piece)
 			if err != nil {
 				outErr = fmt.Errorf("write: %w", err)
 				return nil
 			}
-			if n != len(data) {
-				outErr = fmt.Errorf("short write %d of %d", n, len(data))
+			if n != len(piece) {
+				outErr = fmt.Errorf("short write %d of %d", n, len(piece))
 				return nil
 			}
 		}
@@ -1155,6 +1238,7 @@ func (x *e4Run) execOp(op e4Op) {
 		case "append":
 			n.WriteAt(int64(len(n.Data)), data)
 		}
+		x.nextSplit = op.N
 		err := x.openWrite(op.P, flag, seek, data, true)
 		if x.r.Failed() {
 			return
@@ -1366,6 +1450,24 @@ func (x *e4Run) execOp(op e4Op) {
 			x.bigDir = true
 			x.r.Class("dir>1block")
 		}
+	case "depopulate":
+		dn := x.m.Lookup(op.P)
+		if dn == nil || !dn.Dir {
+			return
+		}
+		for i, nm := range e4DepopulateNames(dn, op.N) {
+			x.exec(e4Op{K: "remove", P: model.Join(op.P, nm)})
+			if x.r.Failed() || x.aborted {
+				return
+			}
+			if i%16 == 15 {
+				x.compare(fmt.Sprintf("depopulate after %d removes", i+1))
+				if x.r.Failed() || x.aborted {
+					return
+				}
+			}
+		}
+		x.r.Class("depopulate:done")
 	case "squeeze":
 		// fill the volume, remove one file, grow another by as many bytes (the growth may be refused: an extent
 		// tree can need blocks of its own), then remove the fill file; every sub-step is compared and checked
